@@ -36,7 +36,7 @@ func dbTest(t *testing.T, prop, test, rule string, p Profile, opt Options) {
 	})
 }
 
-var profC01 = Profile{W: with(baseWeights(), map[int]int{opSnapshot: 5, opQuery: 2, opChanges: 1, opNext: 2, opGC: 1, opCloseIter: 1}), GC: 25, TwoTxns: true, Unlocked: true}
+var profC01 = Profile{W: with(baseWeights(), map[int]int{opSnapshot: 5, opQuery: 5, opChanges: 1, opNext: 2, opGC: 1, opCloseIter: 1}), GC: 25, TwoTxns: true, Unlocked: true}
 
 const ruleC01 = "histories of up to ~50 operations over 1-3 tables with random index sets (unique multi-key, non-unique multi-key, non-unique LPM, unique LPM): write transactions (one or two open at once) with inserts, key-changing updates, deletes, CAS/CAD, commits and aborts, change iterators and (25% of cases) the graveyard worker; up to 6 snapshots are retained (db.ReadTxn() at arbitrary points), a full audit (every query kind for every alphabet key on every index, counts, revision, initialization) is recorded when each is taken, sampled re-audits follow every later operation and a full re-audit ends the case. Non-trivial = a retained snapshot was re-audited after a later committed write; distinct by case encoding."
 
